@@ -22,7 +22,7 @@ var rules = map[string]string{
 var assumptions = []string{
 	"The Go standard library below the seams (bufio, strconv, reflect, fmt, sort) is trusted and runs for real.",
 	"The operating system is a stub owned by the simulator (simrt): environment, fd 1/2, os.Exit, files, clock, tty width; user callbacks (Execute, CommandHandler, option callbacks, UnmarshalFlag, IsValidValue, UnknownOptionHandler, Completer) are recording stubs with fault plans.",
-	"The library code is the real code of /repo's working tree, rewritten only at the seams by the type-driven weaver (selftest-weave: the library's own 142 tests pass on the woven copy in pass-through mode).",
+	"The library code is the real code of /repo's working tree, rewritten only at the seams by the type-driven weaver (checked separately by `bin/simcheck selftest-weave`: the library's own tests run on the woven copy in pass-through mode; not re-run by this check).",
 	"Sampling, not enumeration: a clean batch is evidence, not proof.",
 	"Windows-only files are excluded by build constraints.",
 }
@@ -95,10 +95,10 @@ func writeEvidence(prop, tier string, seed uint64, cfg tierCfg, ws *Workspace, m
 		cov["cells"] = cells
 		cov["cells_covered"] = len(cells)
 		if prop == "C05" {
-			cov["cells_upper_bound"] = 5 * 5 * 32
+			cov["cells_upper_bound"] = 12 * 5 * 32 // history shapes x kind classes (scalar, slice, map, ptr, func) x subsets of the five sources
 		}
 		cov["cells_rule"] = map[string]string{
-			"C05": "cell = (history shape | option kind class | subset of {cli, ini, env, default, stored} present for a judged option); at most 4 x 5 x 32 = 640",
+			"C05": "cell = (history shape | option kind class | subset of {cli, ini, env, default, stored} present for a judged option); at most 12 x 5 x 32 = 1920 (not every combination can occur: e.g. shapes without an INI read have no 'ini' source)",
 			"C12": "cell = (kind class : value class written | IniOptions)",
 			"C04": "cell = (token class present in argv | outcome class)",
 			"C15": "cell = (woven map-iteration site / number of keys : permutation applied), for events with 2..4 keys; at most n! per (site, n)",
